@@ -4,6 +4,7 @@ import math
 import random
 
 from vpm import history
+from vpm.mon import rt
 
 ID = "C14"
 RULE = ("Seasons: every year -1000..3000 x 4 seasons, complete in both tiers "
@@ -134,7 +135,7 @@ def case_season_mix(mon, y, sv):
         for k, s in enumerate(SEASONS):
             mon.evals += 1
             try:
-                e = Sun.get_equinox_solstice(v, s)
+                e = Sun.get_equinox_solstice(v, rt(s))
                 lon = Sun.apparent_geocentric_position(e)[0]()
             except Exception as ex:
                 mon.dev("season.longitude", {"year": v, "season": s,
@@ -166,7 +167,7 @@ def case_seasons(mon, lo, hi):
         for k, s in enumerate(SEASONS):
             mon.evals += 1
             try:
-                e = Sun.get_equinox_solstice(y, s)
+                e = Sun.get_equinox_solstice(y, rt(s))
                 lon = Sun.apparent_geocentric_position(e)[0]()
             except Exception as ex:
                 mon.dev("season.longitude", {"year": y, "season": s,
@@ -207,7 +208,7 @@ def case_season_refusals(mon):
             mon.evals += 1
             mon.cls("season-refusal-probe", ("refuse", y, s), [y, s])
             try:
-                r = Sun.get_equinox_solstice(y, s)
+                r = Sun.get_equinox_solstice(y, rt(s))
             except ValueError:
                 mon.ok("season.refuses-other-years")
                 continue
